@@ -176,6 +176,7 @@ func (t *textRunner) attempt(c textCase, s string, dir string, rng *rand.Rand) (
 	var id string
 	var logBefore []byte
 	rejected := false
+	bystander := true // text of the other items written by the same command came back as given
 	jsonIn := func(m map[string]any) []byte { b, _ := json.Marshal(m); return b }
 	create := func(kind string, title, body string, mode string) (string, bool) {
 		var r RunResult
@@ -232,7 +233,8 @@ func (t *textRunner) attempt(c textCase, s string, dir string, rng *rand.Rand) (
 		epicLevel := rng.Intn(2) == 0
 		doc := map[string]any{"title": "Plan " + other, "body": "plan body", "tasks": []any{
 			map[string]any{"title": "first " + other, "body": "b1"},
-			map[string]any{"title": "second " + other, "body": "b2", "after": []string{"first " + other}}}}
+			map[string]any{"title": "second " + other, "body": "b2", "after": []string{"first " + other}},
+			map[string]any{"title": "third " + other}}} // no body: must come back empty
 		if epicLevel {
 			doc[c.Field] = s
 		} else {
@@ -253,6 +255,17 @@ func (t *textRunner) attempt(c textCase, s string, dir string, rng *rand.Rand) (
 				id = m.Epic.ID
 			} else if len(m.Tasks) > 0 {
 				id = m.Tasks[0].ID
+			}
+			// the other entries of the same document come back as given, too
+			want := doc["tasks"].([]any)
+			for k := 1; k < len(m.Tasks) && k < len(want); k++ {
+				w := want[k].(map[string]any)
+				wb, _ := w["body"].(string)
+				var sh showOut
+				r := st.run(nil, nil, "--json", "show", m.Tasks[k].ID)
+				if r.Exit != 0 || json.Unmarshal(r.Stdout, &sh) != nil || sh.Title != w["title"].(string) || sh.Body != wb {
+					bystander = false
+				}
 			}
 		}
 	}
@@ -278,6 +291,8 @@ func (t *textRunner) attempt(c textCase, s string, dir string, rng *rand.Rand) (
 			got = sh.Body
 		}
 		switch {
+		case !bystander:
+			return "different"
 		case got == s:
 			return "equal"
 		case got == strings.TrimSpace(s):
